@@ -261,34 +261,17 @@ func c10(c *Ctx) {
 		if f == nil {
 			continue
 		}
-		ok := false
-		got := ""
-		for _, b := range f.Blocks {
-			iff := engine.IfOf(b)
-			if iff == nil {
-				continue
-			}
-			cmpb, isCmp := iff.Cond.(*ssa.BinOp)
-			if !isCmp {
-				continue
-			}
-			kc, isK := cmpb.Y.(*ssa.Const)
-			if !isK || kc.Value == nil || kc.Value.Kind() != constant.Int {
-				continue
-			}
-			lim, exact := constant.Uint64Val(kc.Value)
-			if !exact || lim < 1<<20 {
-				continue
-			}
-			if body := loopOf(f, b); body == nil {
-				continue
-			}
-			got = kc.Value.ExactString()
-			if (cmpb.Op == token.GTR && lim == math.MaxUint32) || (cmpb.Op == token.GEQ && lim == math.MaxUint32+1) {
-				ok = true
-			}
+		le, edges := c.accumulatorBound(f)
+		ok := edges > 0 && le(math.MaxUint32) && !le(math.MaxUint32-1)
+		got := "not exactly 2^32-1"
+		if edges == 0 {
+			got = "not found"
+		} else if !le(math.MaxUint32) {
+			got = "missing or above 2^32-1"
+		} else if le(math.MaxUint32 - 1) {
+			got = "below 2^32-1"
 		}
-		R.Check(ok, "R10.5", name+"|bound-is-2^32-1", P.Pos(f.Pos()), "numbers up to 4294967295 are accepted, larger ones rejected", "the number bound in the accumulation loop is "+got+", not 2^32-1: valid RFC 3501 numbers (e.g. UID 1:4294967295) are rejected or invalid ones accepted")
+		R.Check(ok, "R10.5", name+"|bound-is-2^32-1", P.Pos(f.Pos()), "numbers up to 4294967295 are accepted, larger ones rejected", "the number bound in the accumulation loop is "+got+": valid RFC 3501 numbers (e.g. UID 1:4294967295) are rejected or invalid ones accepted")
 	}
 }
 
